@@ -147,11 +147,14 @@ Definition no_ambiguity (op0 op1 : op) (case_blind reluctant : bool) : bool :=
   | OBol => false
   | OEol => negb (mem (icc case_blind op0) 10)
   | _ =>
+      let can_be_empty := negb (mes op1 =? zls_never) in
       match repeat_view op1 with
       | Some (_, mn, _, _) =>
           if mn =? 0 then false
+          else if can_be_empty then false
           else is_disjoint disjoint_threshold (icc case_blind op0) (icc case_blind op1)
-      | None => is_disjoint disjoint_threshold (icc case_blind op0) (icc case_blind op1)
+      | None => if can_be_empty then false
+                else is_disjoint disjoint_threshold (icc case_blind op0) (icc case_blind op1)
       end
   end.
 
